@@ -103,13 +103,15 @@ aes_cipher::~aes_cipher()
 void aes_cipher::load()
 {
 	if(!cbc_.get()) {
-		cbc_ = crypto::cbc::create(cbc_name_);
-		if(!cbc_.get()) {
+		std::unique_ptr<crypto::cbc> cbc = crypto::cbc::create(cbc_name_);
+		if(!cbc.get()) {
 			throw booster::invalid_argument("cppcms::sessions::aes_cipher: the algorithm " + cbc_name_ + " is not supported,"
 							" or the cppcms library was compiled without OpenSSL/GNU-TLS support");
 		}
-		cbc_->set_nonce_iv();
-		cbc_->set_key(cbc_key_);
+		// keep the object only when it is complete: drawing the IV may throw
+		cbc->set_nonce_iv();
+		cbc->set_key(cbc_key_);
+		cbc_ = std::move(cbc);
 	}
 	if(!digest_.get()) {
 		digest_ = crypto::message_digest::create_by_name(md_name_);
